@@ -53,7 +53,7 @@ class C14(Property):
         "runtime; after every op all request types are probed against a stack model and the current runtime's identity is "
         "compared. Sampling, not proof; histories are short because every known failure needs <=5 ops."
     )
-    LEVEL_NOTE = "Trusted: the 40-line stack model (holds = explicit handlers inherited at derivation; lookup = holds -> defaults now -> TypeError). Replacing an existing default handler is outside the statement and never generated."
+    LEVEL_NOTE = "Trusted: the 40-line stack model (holds = explicit handlers inherited at derivation; lookup = holds -> defaults now -> TypeError). A default registered AGAIN for a type makes the model accept any of that type's defaults from then on (the statement does not settle snapshot vs. latest); the derive-time relation 'derived serves what its source serves' stays exact."
     DESIGN_REF = "3 C14"
     RULE = (
         "case = seeded tree of ops {block(R){...}, new, derive(from any runtime | current, pair or mapping form), builtin "
@@ -120,7 +120,12 @@ class C14(Property):
                 ops.append({"op": "builtin", "r": self._new_rt(state), "which": rng.choice(["cache", "logging"])})
             elif x < 0.66:
                 cand = [t for t in range(NTYPES) if t not in state["defaults"]]
-                if cand:
+                if state["defaults"] and rng.random() < 0.3:
+                    # the default of a type is registered AGAIN with another handler (runtimes created before may keep
+                    # serving the old one; what a derived runtime serves must be what its source serves)
+                    state["rereg"] = state.get("rereg", 0) + 1
+                    ops.append({"op": "regdef", "t": rng.choice(sorted(state["defaults"])), "v": state["rereg"]})
+                elif cand:
                     t = rng.choice(cand)
                     state["defaults"].add(t)
                     ops.append({"op": "regdef", "t": t})
@@ -170,10 +175,11 @@ class C14(Property):
         log = box["log"] = Log()
         # fresh request types per run
         types = [type(f"T{t}", (lrt.Request,), {"__init__": lambda self, k=0: setattr(self, "k", k)}) for t in range(NTYPES)]
-        shared.update({"defaults": {}, "holds": {}, "objs": {}, "types": types, "log": log, "nthreads": 0})
+        shared.update({"defaults": {}, "default_tags": {}, "holds": {}, "objs": {}, "types": types, "log": log, "nthreads": 0})
         for t in case["pre_defaults"]:
             lrt.handle_by_default(types[t], _handler(f"d{t}"))
             shared["defaults"][t] = f"d{t}"
+            shared["default_tags"][t] = {f"d{t}"}
         st = box["st"] = {"maxdepth": 0, "exc_exit": False, "reentry": False, "spawned": 0}
         # "a thread whose runtime already exists": the main-thread variant asks for its runtime first (public API)
         base_obj = None if case["worker"] else lrt.current_runtime()
@@ -192,7 +198,14 @@ class C14(Property):
             h = cur_holds()
             if t in h:
                 return h[t]
+            if len(shared["default_tags"].get(t, ())) > 1:
+                # re-registered default: the statement does not settle whether a runtime created in between serves the
+                # handler it saw at creation or the latest one -> any of them (the derive-time relation below is exact)
+                return set(shared["default_tags"][t])
             return defaults.get(t, "TypeError")
+
+        def differs(got, want):
+            return (got not in want) if isinstance(want, set) else (got != want)
 
         def observe(t, k=0):
             try:
@@ -216,8 +229,8 @@ class C14(Property):
                 want = expected(t)
                 log.add("probe", where, t, got)
                 res.bump("probes")
-                if got != want:
-                    res.violate("wrong-handler", where=where, type=t, got=got, want=want, stack=list(stack))
+                if differs(got, want):
+                    res.violate("wrong-handler", where=where, type=t, got=got, want=sorted(want) if isinstance(want, set) else want, stack=list(stack))
                     return
             # identity of the current runtime
             top = stack[-1] if stack else None
@@ -308,19 +321,38 @@ class C14(Property):
                         else:
                             objs[op["r"]] = objs[op["src"]].handle(over)
                     holds_of[op["r"]] = {**src_holds, **{int(t): tag for t, tag in op["overrides"].items()}}
+                    # "a derived runtime holds the handlers of the runtime it was derived from plus its overrides", as a
+                    # relation between what the two serve right now (exact also after a default was registered again)
+                    for t in range(NTYPES):
+                        if str(t) in op["overrides"]:
+                            continue
+                        if op["src"] == "current":
+                            a = observe(t)
+                        else:
+                            with objs[op["src"]]:
+                                a = observe(t)
+                        with objs[op["r"]]:
+                            b = observe(t)
+                        res.bump("derive_relations_checked")
+                        if a != b:
+                            res.violate("derived-runtime-serves-differently-from-its-source", where=where, type=t, source=a, derived=b, stack=list(stack))
+                            return
                 elif kind == "builtin":
                     src_holds = cur_holds()
                     objs[op["r"]] = labrea.cache.disabled() if op["which"] == "cache" else labrea.logging.disabled()
                     holds_of[op["r"]] = dict(src_holds)
                 elif kind == "regdef":
-                    lrt.handle_by_default(types[op["t"]], _handler(f"d{op['t']}"))
-                    defaults[op["t"]] = f"d{op['t']}"
-                    res.bump("defaults_registered_late")
+                    tag = f"d{op['t']}" + (f"v{op['v']}" if op.get("v") else "")
+                    lrt.handle_by_default(types[op["t"]], _handler(tag))
+                    defaults[op["t"]] = tag
+                    shared["default_tags"].setdefault(op["t"], set()).add(tag)
+                    res.bump("defaults_registered_again" if op.get("v") else "defaults_registered_late")
                 elif kind == "run":
                     got = observe(op["t"])
                     log.add("run", where, got)
-                    if got != expected(op["t"]):
-                        res.violate("wrong-handler", where=where, type=op["t"], got=got, want=expected(op["t"]), stack=list(stack))
+                    if differs(got, expected(op["t"])):
+                        want = expected(op["t"])
+                        res.violate("wrong-handler", where=where, type=op["t"], got=got, want=sorted(want) if isinstance(want, set) else want, stack=list(stack))
                         return
                 elif kind == "raise":
                     raise SimRaise(op["k"])
